@@ -34,6 +34,15 @@ def gen(rng, tier, index):
         cfg["in_prefix"] = rng.choice(["", "gw-out"])
         cfg["out_prefix"] = rng.choice(["", "gw-in"])
     ops = netgen.make_ops(rng, cfg["version"], rng.randint(10, 45), WEIGHTS, nodes=(2, 4), scenario=0.4)
+    # the two ends of the id range (the gateway's own node 0, broadcast id 255) are part of the quantifier
+    edge = []
+    if rng.random() < 0.5:
+        edge += [["line", f"0;255;0;0;18;{rng.choice(['1.5', '2.0', '2.2.0'])}"], ["line", f"0;{rng.choice([0, 1, 254])};0;0;6;gw temp"],
+                 ["line", "0;255;3;0;11;Gateway"]]
+    if rng.random() < 0.3:
+        edge += [["line", "255;255;0;0;17;2.1"], ["line", "255;0;0;0;3;x"]]
+    pos = rng.randrange(0, len(ops) + 1)
+    ops[pos:pos] = edge
     ops.append(["restart"])
     ops.extend(netgen.make_ops(rng, cfg["version"], rng.randint(2, 8), WEIGHTS, nodes=(1, 2)))
     ops.append(["restart"])
